@@ -367,6 +367,20 @@ func c06RecordFields(proc string, r scan.Result) string {
 	}
 }
 
+// c06NoProbes is a packet source without probes (the suite is about the receive path).
+type c06NoProbes struct{}
+
+func (c06NoProbes) Packets(ctx context.Context, r *scan.Range) <-chan *packet.BufferData {
+	ch := make(chan *packet.BufferData)
+	close(ch)
+	return ch
+}
+
+// c06RW is the reader plus a writer nobody uses.
+type c06RW struct{ *c06Reader }
+
+func (c06RW) WritePacketData([]byte) error { return nil }
+
 type c06Reader struct {
 	frames chan []byte
 	ctx    context.Context
@@ -508,21 +522,22 @@ func runC06(t *testing.T, c simrt.Chooser, o Opts) *Out {
 		ctx, cancel := context.WithCancel(context.Background())
 		defer cancel()
 		results := scan.NewResultChan(ctx, 1000)
-		var proc packet.Processor
-		var resc <-chan scan.Result
+		// wired exactly as the commands do it: scan.SetupPacketEngine(rw, method) builds sender,
+		// receiver and engine around the scan method; the source of probes is empty here
+		var method scan.PacketMethod
+		src := c06NoProbes{}
 		switch sc.Proc {
 		case "arp":
-			m := arp.NewScanMethod(nil, results)
-			proc, resc = m, m.Results()
+			method = arp.NewScanMethod(src, results)
 		case "tcp":
-			m := tcp.NewScanMethod("tcpflags", nil, results, tcp.WithScanVPNmode(sc.VPN))
-			proc, resc = m, m.Results()
+			method = tcp.NewScanMethod("tcpflags", src, results, tcp.WithScanVPNmode(sc.VPN))
 		default:
-			m := icmp.NewPacketProcessor("icmp", results, sc.VPN)
-			proc, resc = m, m.Results()
+			method = icmp.NewScanMethod(src, results, sc.VPN)
 		}
 		reader = &c06Reader{frames: make(chan []byte), ctx: ctx}
-		errc := packet.NewReceiver(reader, proc).ReceivePackets(ctx)
+		engine := scan.SetupPacketEngine(c06RW{reader}, method)
+		resc := engine.Results()
+		_, errc := engine.Start(ctx, &scan.Range{})
 		cur := 0
 		simrt.Go("c06.results", func() {
 			for {
